@@ -84,7 +84,16 @@ func isZeroConst(e *ir.Expr) bool {
 }
 
 func storeStructs(c *Ctx, h *ssa.Function, sec string) []Inst {
-	return instantiate(c, h, func(e ir.Effect) bool { return e.Kind == "StoreWrite" && e.Section == sec }, func(e ir.Effect) *ir.Expr { return marshalArg(c, e) })
+	out := instantiate(c, h, func(e ir.Effect) bool { return e.Kind == "StoreWrite" && e.Section == sec }, func(e ir.Effect) *ir.Expr { return marshalArg(c, e) })
+	// a record that reaches the store through a helper's result (a plan worked out beforehand, say) is looked into
+	for i := range out {
+		if e := out[i].E; e != nil && e.Op != "struct" && e.Op != "ref" {
+			if x := c.W.Expand(e, 4); x.Op == "struct" {
+				out[i].E = x
+			}
+		}
+	}
+	return out
 }
 
 func storeKeys(c *Ctx, h *ssa.Function, kinds map[string]bool, sec string) []Inst {
